@@ -610,3 +610,165 @@ def check_default_filter(ctx: CheckContext, p: Program, r: Resolver, rule: str =
                         walk(st.body, conds)
             walk(loop.body, [])
     return n_sites
+
+
+def check_zero_seeded_utilities(ctx: CheckContext, p: Program, r: Resolver, rule: str = "SEED"):
+    """Utility Stream objects are created without a duty: the allocator only writes duties it assigns (> tol) and the zone summation
+    only resets its own copies, so both rely on every utility starting at zero."""
+    ctx.rule(rule, "where preparation turns utility definitions into Stream objects no heat_flow is passed (or a literal 0): "
+                   "a pre-seeded duty on a level that a zone does not use would be reported and summed as if assigned")
+    m = p.modules.get("OpenPinch.analysis.data_preparation")
+    n = 0
+    for f in [x for x in p.all_funcs if x.module is m and not isinstance(x.node, ast.Lambda)]:
+        for c in [x for x in body_nodes(f) if isinstance(x, ast.Call)]:
+            if not any(isinstance(t, ClassInfo) and t.name == "Stream" for t in r.resolve_call(f, c)):
+                continue
+            kws = {k.arg: k.value for k in c.keywords if k.arg}
+            is_util = isinstance(kws.get("is_process_stream"), ast.Constant) and kws["is_process_stream"].value is False
+            if not is_util:
+                continue
+            n += 1
+            hf = kws.get("heat_flow")
+            ok = hf is None or (isinstance(hf, ast.Constant) and hf.value in (0, 0.0))
+            ctx.ob(rule, f"{f.qualname}:{norm_stmt(c)[:60]}", f"{f.module.relpath}:{c.lineno}", ok,
+                   "" if ok else f"utility streams are created with heat_flow={ast.unparse(hf)}: levels the allocator does not touch keep that duty")
+    return n
+
+
+def check_sibling_branches(ctx: CheckContext, p: Program, r: Resolver, qualname: str, strip: List[str], rule: str = "SIBLING"):
+    """`if flag: A else: B` where B handles the sibling data set (e.g. net_ streams): the branches must be identical up to the naming difference."""
+    ctx.rule(rule, "the two branches that prepare the destination collections for the process streams and for the net streams are identical up to the "
+                   "`net_` naming difference (a flag honoured in one branch only makes repeated imports accumulate)")
+    f = p.func(qualname)
+    if f is None:
+        raise AnalysisError(f"{qualname} not found")
+    import copy
+
+    def norm(stmts):
+        mod = copy.deepcopy(ast.Module(body=stmts, type_ignores=[]))
+        for n in ast.walk(mod):
+            if isinstance(n, ast.Attribute):
+                for s_ in strip:
+                    n.attr = n.attr.replace(s_, "")
+            if isinstance(n, ast.Name):
+                for s_ in strip:
+                    n.id = n.id.replace(s_, "")
+        return ast.dump(mod)
+    n = 0
+    for st in f.node.body:
+        if isinstance(st, ast.If) and st.orelse and any(s_ in ast.unparse(st) for s_ in strip):
+            n += 1
+            ok = norm(st.body) == norm(st.orelse)
+            ctx.ob(rule, f"{f.qualname}:{norm_stmt(st.test)}", f"{f.module.relpath}:{st.lineno}", ok,
+                   "" if ok else f"the branches of `if {ast.unparse(st.test)}` in {f.name} are not the same code up to the {strip} naming difference")
+    return n
+
+
+def check_fresh_destination(ctx: CheckContext, p: Program, r: Resolver, qualname: str, new_flag: str, rule: str = "FRESH-DST"):
+    """For every assignment of the method's boolean parameters with `new_flag` True, the collection the sub-zone streams are imported
+    into has been re-created (`self.<field> = StreamCollection()`) on that path: a second import must not append to the first one's result."""
+    from ..core.flow import Flow
+    import itertools
+    ctx.rule(rule, f"with {new_flag}=True the destination collections of the sub-zone import are fresh on every path, for the process streams and for the net streams alike "
+                   "(all assignments of the method's boolean parameters are enumerated)")
+    f = p.func(qualname)
+    if f is None:
+        raise AnalysisError(f"{qualname} not found")
+    flags = [a.arg for a in f.params if isinstance(f.default_of(a.arg), ast.Constant) and isinstance(f.default_of(a.arg).value, bool)]
+    if new_flag not in flags:
+        raise AnalysisError(f"{qualname}: parameter {new_flag} not found")
+    me = f.pos_params[0]
+    results: Dict[str, List[Tuple[dict, bool, ast.AST]]] = {}
+    # destination variables: receivers of .add(...) inside the import loops; a receiver bound by `for a, b in ((x, y), ...)` stands for the tuple members
+    dst_names: Set[str] = set()
+    for loop in [x for x in ast.walk(f.node) if isinstance(x, ast.For)]:
+        for c in ast.walk(loop):
+            if isinstance(c, ast.Call) and isinstance(c.func, ast.Attribute) and c.func.attr in ("add", "add_many") and isinstance(c.func.value, ast.Name):
+                dst_names.add(c.func.value.id)
+    for loop in [x for x in ast.walk(f.node) if isinstance(x, ast.For)]:
+        if isinstance(loop.target, ast.Tuple) and isinstance(loop.iter, (ast.Tuple, ast.List)):
+            for i, tv in enumerate(loop.target.elts):
+                if isinstance(tv, ast.Name) and tv.id in dst_names:
+                    for tup in loop.iter.elts:
+                        if isinstance(tup, (ast.Tuple, ast.List)) and i < len(tup.elts) and isinstance(tup.elts[i], ast.Name):
+                            dst_names.add(tup.elts[i].id)
+
+    class FL(Flow):
+        def __init__(self, env):
+            self.env = env
+
+        def copy(self, s):
+            return {"fresh": set(s["fresh"]), "alias": dict(s["alias"])}
+
+        def join(self, a, b):
+            return {"fresh": a["fresh"] & b["fresh"], "alias": {k: v for k, v in a["alias"].items() if b["alias"].get(k) == v}}
+
+        def val(self, t):
+            if isinstance(t, ast.Name) and t.id in self.env:
+                return self.env[t.id]
+            if isinstance(t, ast.UnaryOp) and isinstance(t.op, ast.Not):
+                v = self.val(t.operand)
+                return None if v is None else not v
+            if isinstance(t, ast.BoolOp):
+                vs = [self.val(v) for v in t.values]
+                if isinstance(t.op, ast.And):
+                    return False if any(v is False for v in vs) else (True if all(v is True for v in vs) else None)
+                return True if any(v is True for v in vs) else (False if all(v is False for v in vs) else None)
+            return None
+
+        def branch(self, test, s):
+            v = self.val(test)
+            if v is True:
+                return s, None
+            if v is False:
+                return None, s
+            return s, self.copy(s)
+
+        def field_of(self, e):
+            if isinstance(e, ast.IfExp):
+                v = self.val(e.test)
+                if v is not None:
+                    return self.field_of(e.body if v else e.orelse)
+                return None
+            if isinstance(e, ast.Attribute) and isinstance(e.value, ast.Name) and e.value.id == me:
+                return e.attr
+            return None
+
+        def transfer(self, st, s):
+            s = self.copy(s)
+            if (isinstance(st, ast.Assign) and len(st.targets) == 1) or (isinstance(st, ast.AnnAssign) and st.value is not None):
+                t, v = (st.targets[0] if isinstance(st, ast.Assign) else st.target), st.value
+                if isinstance(t, ast.Attribute) and isinstance(t.value, ast.Name) and t.value.id == me:
+                    is_new = isinstance(v, ast.Call) and any(isinstance(x, ClassInfo) and x.name == "StreamCollection" for x in r.resolve_call(f, v)) and not v.args
+                    (s["fresh"].add if is_new else s["fresh"].discard)(t.attr)
+                elif isinstance(t, ast.Name):
+                    fld = self.field_of(v)
+                    if fld is not None:
+                        s["alias"][t.id] = fld
+                        if t.id in dst_names:
+                            results.setdefault(t.id, []).append((dict(self.env), fld in s["fresh"], st))
+            return s
+
+        def stmt(self, st, s):
+            if isinstance(st, (ast.For, ast.While)):
+                return s          # the import loop itself: destinations are fixed before it
+            return super().stmt(st, s)
+
+    for combo in itertools.product([False, True], repeat=len(flags)):
+        env = dict(zip(flags, combo))
+        FL(env).run(f.node, {"fresh": set(), "alias": {}})
+    if not results:
+        raise AnalysisError(f"{f.loc}: destination collections of the sub-zone import not recognised")
+    n = 0
+    for dst, lst in sorted(results.items()):
+        bad = [(env, st) for env, fresh, st in lst if env[new_flag] and not fresh]
+        n += 1
+        ok = not bad
+        msg = ""
+        if bad:
+            env, st = bad[0]
+            cond = ", ".join(f"{k}={v}" for k, v in sorted(env.items()))
+            msg = (f"with {cond} the destination '{dst}' ({norm_stmt(st)}) is the collection left by the previous import: "
+                   f"sub-zone streams are appended again, so the zone's own targets are computed on duplicated streams")
+        ctx.ob(rule, f"{f.qualname}:{dst}", f"{f.module.relpath}:{lst[0][2].lineno}", ok, msg, assignments_explored=len(lst))
+    return n
